@@ -322,10 +322,17 @@ def oracle(case):
                 ok = r is None
             elif n == "setitem":
                 v = mk_val(op[2])
+                before = d.get(key)
+                before_content = (before.key, before.value, before.start_line) if before is not None else None
                 e[key] = v
                 f = e.fields_dict.get(key)
                 ok = f is not None and f.key == key and f.value is v
                 d[key] = f
+                # d[k] = v rebinds the slot: what an earlier get() / fields handed out (the Field stored before) is a
+                # result of an earlier call and must not change retroactively - nor may an entry sharing that Field
+                if before is not None and (before.key, before.value, before.start_line) != before_content:
+                    return "%s changed the Field object that was stored before (%r -> %r): results handed out earlier change" % (
+                        where, before_content, (before.key, before.value, before.start_line))
             elif n == "pop":
                 dflt = None if op[2] is None else mk_field(op[2])
                 want = d.pop(key, dflt)
